@@ -730,8 +730,10 @@ static void apply_world(const json &plan)
 		for (auto &f : w["fs"]) {
 			FsNode n;
 			std::string k = f.value("kind", std::string("file"));
-			n.kind = k == "dir" ? FS_DIR : k == "noperm" ? FS_NOPERM : FS_FILE;
-			if (f.contains("chunks") || f.contains("text"))
+			n.kind = k == "dir" ? FS_DIR : k == "noperm" ? FS_NOPERM : k == "link" ? FS_LINK : FS_FILE;
+			if (k == "link")
+				n.bytes = f["to"].get<std::string>();
+			else if (f.contains("chunks") || f.contains("text"))
 				n.bytes = source_text(f);
 			W.fs[f["path"].get<std::string>()] = n;
 		}
